@@ -1883,7 +1883,21 @@ class Collection(object):
             ret_array = ret_array_copy
             return ret_array
 
-    def aggregate(self, pipeline, session=None, **unused_kwargs):
+    def aggregate(self, pipeline, session=None, collation=None, array_filters=None, let=None,
+                  **unused_kwargs):
+        if collation:
+            raise_not_implemented(
+                'collation',
+                'The collation argument of aggregate is valid but has not been implemented in '
+                'mongomock yet')
+        if array_filters:
+            raise_not_implemented(
+                'array_filters', 'Array filters are not implemented in mongomock yet.')
+        if let:
+            raise_not_implemented(
+                'let',
+                'The let argument of aggregate is valid but has not been implemented in mongomock '
+                'yet')
         in_collection = [doc for doc in self.find()]
         return aggregate.process_pipeline(in_collection, self.database, pipeline, session)
 
